@@ -209,6 +209,8 @@ def src_name(tool, outcfg):
         return "doc.md"
     if outcfg == "inplace" and tool in SUFFIX:
         return "doc" + SUFFIX[tool] + ".docx"
+    if outcfg == "suffix_inside" and tool in SUFFIX:
+        return "doc" + SUFFIX[tool] + "_v2.docx"      # carries the suffix, but not at the end: not the in-place case
     return "doc.docx"
 
 
@@ -483,7 +485,7 @@ def gen_cases(tier, seed):
             if tool in WRITERS:
                 cfgs += ["explicit_new", "explicit_existing"]
             if tool in SUFFIX:
-                cfgs.append("inplace")
+                cfgs += ["inplace", "suffix_inside"]
             if tool == "cli_markup":
                 cfgs.append("md_input")
             for outcfg in cfgs:
@@ -615,7 +617,7 @@ def run(tier, seed, driver_ok):
         "evaluations": dist["calls"],
         "distinct_nontrivial": nontrivial,
         "rule": ("every MCP tool and CLI command x {valid, missing, non-DOCX, truncated} source x {default, explicit new, "
-                 "explicit existing, in-place suffix, .md input} output configuration x fault positions: "
+                 "explicit existing, in-place suffix, suffix inside the name, .md input} output configuration x fault positions: "
                  + ("every internal step k" if tier != "quick" else "the first steps, every step of the save phase and a sample in between")
                  + " of the fault-free call (a step = one call of any function or method of adeu.diff/ingest/markup/"
                  "redline.*, of the front-end's own helpers, an open-for-write, a write, an os.replace); non-trivial = the call "
